@@ -95,8 +95,58 @@ impl AlpnList { pub fn iter(&self) -> AlpnIter { AlpnIter } }
 impl AlpnIter { pub fn map<B, F: FnMut(&&'static [u8]) -> B>(self, _f: F) -> AlpnIter2<B> { AlpnIter2(std::marker::PhantomData, 0) } }
 impl AlpnIter2<Alpn1> { pub fn collect(self) -> Alpn { Alpn(1) } }
 
+// ---------------------------------------------------------------- client side (connectors): TlsClientConfig
+#[derive(Clone, Copy, PartialEq, Eq, Debug)]
+pub enum SrvVerifier { Insecure, WebPki { has_public_roots: bool, n_ca: u8, ca_id: u8 } }
+pub trait ServerCertVerifier { fn sv(&self) -> SrvVerifier; }
+pub struct SV(pub SrvVerifier);
+impl ServerCertVerifier for SV { fn sv(&self) -> SrvVerifier { self.0 } }
+pub struct WebPkiVerifier;
+impl WebPkiVerifier { pub fn new(roots: RootCertStore2, _ct: Option<()>) -> SV { SV(SrvVerifier::WebPki { has_public_roots: roots.0.public, n_ca: roots.0.n_ca, ca_id: roots.0.ca_id }) } }
+/// what ends up trusted: the public web PKI roots and / or the certificates of the configured CA file
+#[derive(Clone, Copy, PartialEq, Eq, Debug)]
+pub struct ClientRootStore { pub public: bool, pub n_ca: u8, pub ca_id: u8 }
+pub type PathBuf = u8;
+static mut CA_CERTS_OK: bool = true;
+static mut CA_N_CERTS: u8 = 1;
+/// contract of load_certs(path): the certificates of that file (0..=2 here) or an error
+#[derive(Clone, Copy)] pub struct CaCert(pub u8);
+pub struct CertVec { pub items: [CaCert; 2], pub n: u8 }
+impl CertVec { pub fn is_empty(&self) -> bool { self.n == 0 } }
+pub struct CertIter { v: CertVec, pos: u8 }
+impl Iterator for CertIter { type Item = CaCert; fn next(&mut self) -> Option<CaCert> { if self.pos < self.v.n { let c = self.v.items[self.pos as usize]; self.pos += 1; Some(c) } else { None } } }
+impl IntoIterator for CertVec { type Item = CaCert; type IntoIter = CertIter; fn into_iter(self) -> CertIter { CertIter { v: self, pos: 0 } } }
+macro_rules! vec { () => { CertVec { items: [CaCert(0); 2], n: 0 } } }
+pub fn load_certs(p: &PathBuf) -> Result<CertVec, Error> { unsafe { if CA_CERTS_OK { Ok(CertVec { items: [CaCert(*p); 2], n: CA_N_CERTS }) } else { Err(Error { cause: 5 }) } } }
+impl RootCertStore2 {
+    pub fn empty() -> Self { RootCertStore2(ClientRootStore { public: false, n_ca: 0, ca_id: 0 }) }
+    pub fn add(&mut self, c: &CaCert) -> Result<(), Error> { self.0.n_ca += 1; self.0.ca_id = c.0; Ok(()) }
+    pub fn add_server_trust_anchors<I>(&mut self, _i: I) { self.0.public = true; }
+}
+pub struct RootCertStore2(pub ClientRootStore);
+pub mod webpki_roots { pub struct Roots(pub RootList); pub struct RootList; pub struct RootIter; pub struct Ta { pub subject: u8, pub spki: u8, pub name_constraints: u8 }
+    impl RootList { pub fn iter(&self) -> RootIter { RootIter } } impl RootIter { pub fn map<B, F: FnMut(&Ta) -> B>(self, _f: F) -> RootIter { RootIter } }
+    pub const TLS_SERVER_ROOTS: Roots = Roots(RootList); }
+pub struct OwnedTrustAnchor;
+impl OwnedTrustAnchor { pub fn from_subject_spki_name_constraints(_a: u8, _b: u8, _c: u8) -> Self { OwnedTrustAnchor } }
+pub struct ClientConfig { pub verifier: SrvVerifier, pub has_client_cert: bool }
+pub struct CB0; pub struct CB1; pub struct CB2 { v: SrvVerifier }
+impl ClientConfig { pub fn builder() -> CB0 { CB0 } }
+impl CB0 { pub fn with_safe_defaults(self) -> CB1 { CB1 } }
+impl CB1 { pub fn with_custom_certificate_verifier<V: ServerCertVerifier + ?Sized>(self, v: Arc<V>) -> CB2 { CB2 { v: v.sv() } } }
+impl CB2 {
+    pub fn with_single_cert(self, _c: Certs, _k: PrivateKey) -> Result<ClientConfig, Error> { unsafe { if SINGLE_CERT_OK { Ok(ClientConfig { verifier: self.v, has_client_cert: true }) } else { Err(Error { cause: 6 }) } } }
+    pub fn with_no_client_auth(self) -> ClientConfig { ClientConfig { verifier: self.v, has_client_cert: false } }
+}
+pub struct TlsClientAuthConfig { cert: u8, key: u8 }
+impl TlsClientAuthConfig { pub fn certs(&self) -> Result<(Certs, PrivateKey), Error> { unsafe { if CERTS_OK { Ok((Certs(self.cert), PrivateKey(self.key))) } else { Err(Error { cause: 4 }) } } } }
+pub struct TlsClientConfigPopulated { pub config: Arc<ClientConfig> }
+pub struct TlsClientConfig { pub ca: Option<PathBuf>, pub insecure: bool, pub auth: Option<TlsClientAuthConfig>, populated: Option<TlsClientConfigPopulated>, disable_early_data: bool }
+impl TlsClientConfig { pub fn insecure_verifier(&self) -> Arc<SV> { Arc::new(SV(SrvVerifier::Insecure)) } }
+
 // ---------------------------------------------------------------- the real texts
 include!("tls.in.rs");
+include!("tls_client.in.rs");
 
 #[cfg(kani)]
 #[kani::proof]
@@ -130,6 +180,39 @@ fn tls_server_policy() {
         kani::cover!(r.is_ok() && has_client && required);
         kani::cover!(q.is_ok() && has_client && !required);
         kani::cover!(r.is_err() && has_client && !ROOTS_OK);
+    }
+}
+
+#[cfg(kani)]
+#[kani::proof]
+#[kani::unwind(4)]
+fn tls_client_policy() {
+    unsafe { CA_CERTS_OK = kani::any(); CA_N_CERTS = kani::any(); kani::assume(CA_N_CERTS <= 2); CERTS_OK = kani::any(); SINGLE_CERT_OK = kani::any(); }
+    let has_ca: bool = kani::any();
+    let ca: u8 = kani::any();
+    let insecure: bool = kani::any();
+    let mut c = TlsClientConfig { ca: if has_ca { Some(ca) } else { None }, insecure, auth: if kani::any() { Some(TlsClientAuthConfig { cert: 1, key: 2 }) } else { None }, populated: None, disable_early_data: false };
+    let r = c.init();
+    unsafe {
+        if r.is_ok() {
+            let v = c.populated.as_ref().unwrap().config.verifier;
+            if insecure { assert!(v == SrvVerifier::Insecure); }
+            else {
+                // without `insecure` the upstream certificate is verified; with a configured (non-empty) CA file ONLY that
+                // CA is trusted -- the public web PKI roots are used only when no CA is configured
+                match v {
+                    SrvVerifier::Insecure => assert!(false),
+                    SrvVerifier::WebPki { has_public_roots, n_ca, ca_id } => {
+                        if has_ca && CA_N_CERTS > 0 { assert!(!has_public_roots && n_ca == CA_N_CERTS && ca_id == ca); }
+                        else { assert!(has_public_roots && n_ca == 0); }
+                    }
+                }
+            }
+        }
+        // a configured CA file that cannot be read is an error, never a fallback to the public roots
+        if has_ca && !CA_CERTS_OK { assert!(r.is_err()); }
+        kani::cover!(r.is_ok() && !insecure && has_ca && CA_N_CERTS == 2);
+        kani::cover!(r.is_ok() && !insecure && !has_ca);
     }
 }
 
